@@ -449,6 +449,43 @@ fn cmd_writer_configs(full: bool) {
     println!("{{\"cmd\":\"writer-configs\",\"bound\":\"8 writer configurations x {} encryption strengths x {} password pairs, strict parser, both passwords\",\"evaluated\":{},\"disagreement_count\":{},\"disagreements\":[{}]}}", if full { "5" } else { "3 (+ AES-256 for one configuration)" }, if full { 2 } else { 1 }, evaluated, nbad, bad.join(","));
 }
 
+// C13 Eb: text drawn with an embedded TrueType font (the repository's Roboto fixture) through page.text() and page.graphics(),
+// alone and together on one page, is extracted back by the library's extractor. The strings include consecutive code-point runs
+// that cross a 256-code row (U+00F0..U+010F, U+04F0..U+050F), which the writer emits as bfrange entries that need a carry.
+fn cmd_embedded_font() {
+    use oxidize_pdf::parser::{PdfDocument, PdfReader};
+    let font = match std::fs::read("/repo/test-pdfs/Roboto-Regular.ttf") { Ok(f) if f.len() > 100_000 => f, _ => { println!("{{\"cmd\":\"embedded-font\",\"evaluated\":0,\"disagreements\":[],\"note\":\"font fixture not available\"}}"); return; } };
+    let run = |from: u32, to: u32| -> String { (from..=to).filter_map(char::from_u32).collect() };
+    let strings: Vec<String> = vec!["Heading 2024".to_string(), "\u{41f}\u{440}\u{438}\u{432}\u{435}\u{442}, \u{43c}\u{438}\u{440}".to_string(),
+        run(0xF0, 0x10F), run(0x4F0, 0x50F), "\u{ff}\u{100}".to_string(), "L'Ha\u{ff}-les-Roses, \u{100}da\u{17e}i".to_string(), run(0x21, 0x7E)];
+    let mut evaluated = 0u64; let mut bad: Vec<String> = vec![];
+    // (text-API string, graphics-API string)
+    let mut cases: Vec<(Option<&String>, Option<&String>)> = vec![];
+    for s in &strings { cases.push((Some(s), None)); cases.push((None, Some(s))); }
+    for a in &strings { for b in &strings { if a != b { cases.push((Some(a), Some(b))); } } }
+    for (t, g) in cases {
+        evaluated += 1;
+        let font = font.clone();
+        let r = panic::catch_unwind(move || -> Result<String, String> {
+            let mut doc = oxidize_pdf::Document::new();
+            doc.add_font_from_bytes("Roboto", font).map_err(|e| e.to_string())?;
+            let mut page = oxidize_pdf::Page::a4();
+            if let Some(g) = g { page.graphics().set_font(oxidize_pdf::Font::Custom("Roboto".to_string()), 12.0).draw_text(g, 40.0, 640.0).map_err(|e| e.to_string())?; }
+            if let Some(t) = t { page.text().set_font(oxidize_pdf::Font::Custom("Roboto".to_string()), 12.0).at(40.0, 720.0).write(t).map_err(|e| e.to_string())?; }
+            doc.add_page(page);
+            let pdf = doc.to_bytes().map_err(|e| e.to_string())?;
+            let reader = PdfReader::new(std::io::Cursor::new(pdf)).map_err(|e| e.to_string())?;
+            Ok(PdfDocument::new(reader).extract_text_from_page(0).map_err(|e| e.to_string())?.text)
+        });
+        let squash = |s: &str| -> String { s.chars().filter(|c| !c.is_whitespace()).collect() };
+        let ok = match &r { Ok(Ok(text)) => { let x = squash(text); t.map(|s| x.contains(&squash(s))).unwrap_or(true) && g.map(|s| x.contains(&squash(s))).unwrap_or(true) } _ => false };
+        if !ok && bad.len() < 6 { bad.push(format!("{{\"text_api\":{},\"graphics_api\":{},\"extracted\":{}}}", js(&format!("{:?}", t)), js(&format!("{:?}", g)), js(&format!("{:?}", r.map_err(|_| "PANIC")).chars().take(300).collect::<String>()))); }
+        else if !ok { bad.push(String::new()); }
+    }
+    let n = bad.len(); bad.retain(|b| !b.is_empty());
+    println!("{{\"cmd\":\"embedded-font\",\"bound\":\"7 strings (ASCII, Cyrillic, code-point runs crossing U+00FF/U+0100 and U+04FF/U+0500) x text API / graphics API / both on one page, Roboto fixture\",\"evaluated\":{},\"disagreement_count\":{},\"disagreements\":[{}]}}", evaluated, n, bad.join(","));
+}
+
 fn cmd_fmt() {
     // Ec: the concrete contracts of the R6 formatting stubs used by Verus units, over all 256 bytes
     let hd = |n: u8| if n < 10 { b'0' + n } else { b'A' + n - 10 };
@@ -940,6 +977,7 @@ fn main() {
         Some("a85hex-roundtrip") => cmd_a85hex_roundtrip(args.get(2).and_then(|s| s.parse().ok()).unwrap_or(4)),
         Some("fmt") => cmd_fmt(),
         Some("opnames") => cmd_opnames(),
+        Some("embedded-font") => cmd_embedded_font(),
         Some("writer-configs") => cmd_writer_configs(args.get(2).map(|s| s == "full").unwrap_or(false)),
         Some("notes-history") => cmd_notes_history(args.get(2).and_then(|s| s.parse().ok()).unwrap_or(3)),
         Some("filters-roundtrip") => cmd_filters_roundtrip(args.get(2).and_then(|s| s.parse().ok()).unwrap_or(20000)),
